@@ -5,6 +5,7 @@ import (
 	"fmt"
 	"math/rand"
 	"net/url"
+	"runtime"
 	"runtime/debug"
 	"sort"
 	"strings"
@@ -778,7 +779,18 @@ func c19hot(c *run.Ctx, model porcupine.Model, bursts int, delay time.Duration) 
 		}
 		world.LockDelay(delay)
 		close(start)
-		wg.Wait()
+		finished := make(chan struct{})
+		go func() { wg.Wait(); close(finished) }()
+		select {
+		case <-finished:
+		case <-time.After(60 * time.Second):
+			// a handful of store calls do not take a minute: somebody waits for a lock that is never given back
+			world.LockDelay(0)
+			buf := make([]byte, 1<<16)
+			buf = buf[:runtime.Stack(buf, true)]
+			c.Violate(run.Violation{Kind: "deadlock", Key: "deadlock: burst " + kind + " did not finish", Detail: "the goroutines of one burst of store operations did not return within a minute\n" + string(buf)})
+			return
+		}
 		world.LockDelay(0)
 		hist := append(append(pre, outs...), extra...)
 		res, _ := porcupine.CheckOperationsVerbose(model, hist, 10*time.Second)
